@@ -6,7 +6,7 @@ SRC = os.path.join(VERIF, 'searcher')
 FAMILIES = {
     'C01': ['stream', 'modes', 'regex'], 'C02': ['stream', 'lookahead', 'la_compete', 'finite', 'regex', 'modes'], 'C03': ['finite', 'regex', 'stream', 'lookahead'],
     'C04': ['lookahead', 'la_compete', 'offset', 'peek'], 'C05': ['lookahead', 'la_compete'], 'C06': ['modes', 'isolation'],
-    'C07': ['stream', 'lookahead', 'offset', 'la_compete'], 'C13': ['cache'], 'C08': ['classes', 'named_classes', 'named_leaves'], 'C15': ['unsupported'], 'C09': ['positions'],
+    'C07': ['stream', 'lookahead', 'offset', 'la_compete', 'unsupported'], 'C13': ['cache'], 'C08': ['classes', 'named_classes', 'named_leaves'], 'C15': ['unsupported'], 'C09': ['positions'],
     'C10': ['offset', 'peek'], 'C17': ['large'], 'C11': ['peek', 'modes', 'offset'], 'C12': ['isolation', 'modes'],
 }
 
